@@ -19,6 +19,7 @@ import struct
 from .model import AnalysisError, dotted, norm
 
 TOP = "T"
+_MISSING = object()
 
 
 class Unsupported(AnalysisError):
@@ -465,10 +466,39 @@ class Evaluator:
                 if not is_and and v:
                     return True
             return is_and
-        if isinstance(e, ast.Tuple):
-            return tuple(self.expr(x) for x in e.elts)
-        if isinstance(e, ast.List):
-            return [self.expr(x) for x in e.elts]
+        if isinstance(e, (ast.Tuple, ast.List)):
+            out = []
+            for x in e.elts:
+                if isinstance(x, ast.Starred):
+                    inner = self.expr(x.value)
+                    if not isinstance(inner, (list, tuple)):
+                        raise Unsupported(f"starred `{norm(x)}`")
+                    out.extend(inner)
+                else:
+                    out.append(self.expr(x))
+            return tuple(out) if isinstance(e, ast.Tuple) else out
+        if isinstance(e, (ast.ListComp, ast.GeneratorExp)) and len(e.generators) == 1 and isinstance(e.generators[0].target, ast.Name):
+            g = e.generators[0]
+            it = self.expr(g.iter)
+            if not isinstance(it, (range, list, tuple)):
+                raise Unsupported(f"comprehension over `{norm(g.iter)}`")
+            out = []
+            saved = self.env.get(g.target.id, _MISSING)
+            for v in it:
+                self.env[g.target.id] = v
+                keep = True
+                for cond in g.ifs:
+                    c = self.expr(cond)
+                    if not isinstance(c, bool):
+                        raise Unsupported(f"comprehension filter `{norm(cond)}`")
+                    keep = keep and c
+                if keep:
+                    out.append(self.expr(e.elt))
+            if saved is _MISSING:
+                self.env.pop(g.target.id, None)
+            else:
+                self.env[g.target.id] = saved
+            return out
         if isinstance(e, ast.Subscript):
             return self._subscript(e)
         if isinstance(e, ast.JoinedStr):
@@ -672,6 +702,8 @@ class Evaluator:
                 size = sum(s for _, s in parse_format(args[0])[1])
                 data = SymBytes(_to_items(data)[:size])
             return unpack(args[0], data if isinstance(data, SymBytes) else SymBytes(_to_items(data)))
+        if name == "reversed" and len(args) == 1 and isinstance(args[0], (range, list, tuple)):
+            return list(reversed(args[0]))
         if name == "range" and len(args) == 1:
             n = args[0]
             if isinstance(n, SymInt):
